@@ -902,6 +902,12 @@ val genesis_validator : state -> ((bytes * bytes) * z) -> state
 val init_chain :
   state -> ((bytes * bytes) * z) list -> z -> (state * update list) option
 
+val ed25519_key : bytes -> bool
+
+val refused_key : bool -> state -> msg -> bool
+
+val deliver_tx_cp : bool -> state -> tx -> dres0
+
 val uvarint_enc : nat -> z -> bytes
 
 val uvarint : z -> bytes
